@@ -43,7 +43,8 @@ def c01(tr):
                     out.append(F("c01_extrusion_in_episode", it, "forwarded %r advances filament by %r while an episode is open" % (cmd, snap[FIL] - prev[FIL])))
                 if step is not None and step.kind == "fwrecover":
                     out.append(F("c01_fwrecover_in_episode", it, "firmware recover %r forwarded while an episode is open" % (cmd,)))
-            if it.enabled_after and (prev[X] != snap[X] or prev[Y] != snap[Y]) and snap[X] is not None:
+            # (commands sent by a disabling @-command run with exclusion disabled: not subject to this clause)
+            if it.kind == "g" and it.enabled_after and (prev[X] != snap[X] or prev[Y] != snap[Y]) and snap[X] is not None:
                 if step is not None and step.kind != "home":
                     if geom.classify(it.regions, snap[X], snap[Y], it.margin) == geom.IN:
                         out.append(F("c01_move_into_region", it, "forwarded %r moves the tool to (%r,%r) inside a region" % (cmd, snap[X], snap[Y])))
